@@ -284,8 +284,11 @@ func filterIgnored(
 				// only be used by tests, in which case an
 				// ignore would only fire when not analyzing
 				// tests. To avoid spurious "useless ignore"
-				// warnings, just never flag U1000.
-				return false
+				// warnings, U1000 never makes a directive
+				// count as one that could have matched. The
+				// other names of the directive still decide,
+				// wherever in the list U1000 stands.
+				continue
 			}
 
 			// Even though the runner always runs all analyzers, we
@@ -293,8 +296,15 @@ func filterIgnored(
 			// analyzers the user has expressed interest in. That way,
 			// `staticcheck -checks=SA1000` won't complain about an
 			// unmatched ignore for an unrelated check.
-			if allowedAnalyzers[c] {
-				return true
+			//
+			// Names are globs, just as they are when matching problems.
+			for name, enabled := range allowedAnalyzers {
+				if !enabled || name.String() == "u1000" {
+					continue
+				}
+				if m, _ := filepath.Match(c.String(), name.String()); m {
+					return true
+				}
 			}
 		}
 
